@@ -114,9 +114,51 @@ def configs(ctx, thorough):
     return sel
 
 
+def divergent(ctx):
+    """a hierarchy whose smoother amplifies the error: the iterates overflow, the residual norms become inf / nan, and
+    the solve must still run its maxiter cycles and report that count (a non-finite norm is not below any tolerance)"""
+    import warnings
+    import pyamg
+    from pyamg.gallery import poisson
+    for (shape, omega, mi, cyc) in (((24,), 3.5, 420, 'V'), ((7, 6), 3.0, 500, 'V'), ((24,), 3.5, 260, 'W')):
+        A = poisson(shape, format='csr')
+        sm = ('jacobi', {'omega': omega, 'withrho': False})
+        np.random.seed(3)
+        ml = pyamg.smoothed_aggregation_solver(A, presmoother=sm, postsmoother=sm, max_coarse=4)
+        b = np.random.rand(A.shape[0])
+        case = dict(divergent=True, grid=list(shape), omega=omega, maxiter=mi, cycle=cyc)
+        ctx.mark(case)
+        res, cbs = [], []
+        with warnings.catch_warnings(), np.errstate(all='ignore'):
+            warnings.simplefilter('ignore')
+            try:
+                x, st = ml.solve(b, tol=1e-8, maxiter=mi, cycle=cyc, residuals=res, return_info=True,
+                                 callback=lambda xk: cbs.append(np.array(xk, copy=True)))
+            except Exception as e:   # noqa
+                ctx.fail('solve/divergent/raises', repr(e), case)
+                continue
+        ctx.case(('divergent', shape, omega, mi, cyc), True)
+        ctx.count('tag=divergent')
+        if np.isfinite(res[-1]):
+            ctx.notes.append('divergent probe %r stayed finite' % (case,))
+            continue
+        if st != mi or len(cbs) != mi or len(res) != mi + 1:
+            ctx.fail('solve/divergent/status-count', 'status %r, %d cycles, %d history entries with maxiter=%d (non-finite residual from cycle %d on)'
+                     % (st, len(cbs), len(res), mi, next(i for i, v in enumerate(res) if not np.isfinite(v))), case)
+        elif not np.array_equal(np.ravel(x), np.ravel(cbs[-1]), equal_nan=True):
+            ctx.fail('solve/divergent/returns-last', 'returned x is not the last iterate', case)
+        # also without the optional outputs
+        with warnings.catch_warnings(), np.errstate(all='ignore'):
+            warnings.simplefilter('ignore')
+            x2, st2 = ml.solve(b, tol=1e-8, maxiter=mi, cycle=cyc, return_info=True)
+        if st2 != mi:
+            ctx.fail('solve/divergent/status-count/no-outputs', 'status %r with maxiter=%d' % (st2, mi), case)
+
+
 def run(ctx):
     M = 5 if not ctx.thorough else 8
     cases, meta = [], []
+    divergent(ctx)
     for bname, f, mname, A in configs(ctx, ctx.thorough):
         try:
             np.random.seed(ctx.seed)      # setup draws from NumPy's global RNG
